@@ -819,6 +819,13 @@ func checkDistribution(d DistributionLiteral) error {
 		if d.H == 0 && d.P != 0 && !(d.P > 0 && d.P < 1) {
 			return fmt.Errorf("ring.Ternary: P=%f is not in ]0, 1[", d.P)
 		}
+	case ring.DiscreteGaussian:
+		if !(d.Sigma >= 0) || math.IsInf(d.Sigma, 0) {
+			return fmt.Errorf("ring.DiscreteGaussian: Sigma=%f is not a standard deviation", d.Sigma)
+		}
+		if d.Sigma > 0 && !(d.Bound > 0) {
+			return fmt.Errorf("ring.DiscreteGaussian: Bound=%f must be positive (no sample would ever be accepted)", d.Bound)
+		}
 	}
 	return nil
 }
